@@ -2,7 +2,7 @@
 import engine
 
 OPS = ["mul_naive", "addmul_naive", "mul_va", "mul_m4rm", "addmul_m4rm", "mul", "addmul", "djb"]
-PROOFS = ["Properties_C01a", "Properties_C01b"]
+PROOFS = ["Properties_C01a", "Properties_C01b", "Properties_C01c"]
 
 
 def run(res, tier, seed):
